@@ -13,6 +13,8 @@ PLAN = dict(
         step("heap-families-rv", "c10-rv", "c10-rv", 0, 0, viol=r"class=heap-invariant"),
         step("heaplock-x86", "codegen-x86", "heaplock-x86", 150, 6000, shards_thorough=12, viol=r"class=heap-lockstep"),
         step("heaplock-families-x86", "c10-x86", "heaplock-x86", 0, 0, viol=r"class=heap-lockstep"),
+        # known finding heap-exhaustion-unchecked: the REAL code of an allocation run with the frontier at the end of the heap region
+        step("heapfull-x86", "heapfull-x86", "heapfull-x86", 16, 64, shards_thorough=1, viol=r"class=heap-exhaustion-unchecked|class=heapfull-unexpected"),
     ],
     rule="(1) every program of the corpus (examples, testsuite, corpus/fun, corpus/c10) compiled by the real pipeline; the REAL x86-64 code is "
          "executed on the ISA model for 4 argument tuples (3 iteration counts for the loop families) in lockstep with the AxCut machine; at every "
@@ -42,7 +44,12 @@ PLAN = dict(
          "argument tuples: at every statement boundary (the implementation's own statement comments) the HEAP/FREE registers, the first "
          "temporary of every non-integer variable, and header + pointer slots of every block below the abstract frontier must equal the "
          "instrumented configuration about to execute that statement, and nothing may be written at or above the frontier (all blocks at the "
-         "first 256 boundaries, every 64th afterwards, and the last). Tags: boundaries (log2), operations (log2)",
+         "first 256 boundaries, every 64th afterwards, and the last). Tags: boundaries (log2), operations (log2). "
+         "(5) heapfull-x86 (known finding heap-exhaustion-unchecked): 2-3 allocations of objects with 1-8 integer fields, code from the REAL Memory::store, run on the "
+         "ISA model from the state whose HEAP register holds the block HEAP_BASE + HEAP_SIZE - 64 * room (FREE the next one, heap zeroed); even cases need exactly "
+         "`room` blocks - the allocation that takes the last one faults with an out-of-bounds access at the end of the region (VIOL class=heap-exhaustion-unchecked: no "
+         "frontier check is emitted) -, odd cases are controls with room left (every second one on the boundary: the last block of the region is used) and must run to "
+         "their end with the registers advanced block by block, anything else is class=heapfull-unexpected. Tags: control, boundary",
     explanation="theorems (abstract allocator Model/Heap.v, Proof/HeapMore.v, Proof/HeapTrace.v): the counting invariant and its strengthening InvA "
                 "(exact partition of the blocks below the frontier, non-negative counts, acyclic slots) hold initially and are preserved by share, "
                 "erase, acquire (3 cases), single-block and chained-object allocation, destructive and non-destructive load of single-block and "
@@ -67,5 +74,6 @@ PLAN = dict(
                  "AArch64 / RISC-V allocator code: covered by execution with the invariant at every boundary (steps heap-a64, heap-rv and families), no refinement proof; on RISC-V the entry state (X2 = heap base, X3 = one block further) and the 64-bit reading of LW/SW are those of C08"],
     trusted=["coq/Sem/HeapCheck.v (executable invariant)", "coq/Sem/X86Sem.v", "coq/Sem/A64Sem.v", "coq/Sem/RVSem.v", "coq/Sem/HeapLock.v, Sem/X86Heap.v, Sem/A64Heap.v, Sem/RVHeap.v (lockstep runners)", "coq/Sem/AxSem.v + Sem/AxTrace.v (roots via lockstep)",
              "coq/Model/RunHeapOps.v (lockstep driver of heapops-x86), harness/src/cmd_heapops.rs (generator)",
-             "coq/Sem/X86HeapLock.v + coq/Model/RunHeapLock.v (lockstep driver of heaplock-x86)"],
+             "coq/Sem/X86HeapLock.v + coq/Model/RunHeapLock.v (lockstep driver of heaplock-x86)",
+             "coq/Model/RunHeapFull.v + harness/src/cmd_heapfull.rs (known finding heap-exhaustion-unchecked: allocation at the end of the heap region)"],
 )
